@@ -1,6 +1,6 @@
 (* C11 -- Automatic mask minimises the documented penalty over all eight masks. *)
 From Coq Require Import NArith List Bool Arith Lia.
-From FQ Require Import Lib.Mat Model.Types Model.Hardcode Model.Default Model.Masking Model.Score Model.Placement Model.Qr
+From FQ Require Import Proofs.PropLemmas Lib.Mat Model.Types Model.Hardcode Model.Default Model.Masking Model.Score Model.Placement Model.Qr
   Spec.Penalty Proofs.Scanner Proofs.ScoreSpec Proofs.Build Proofs.BuildMatrix Proofs.Select.
 Import ListNotations.
 
@@ -37,5 +37,5 @@ Print Assumptions C11_first_minimum.
 
 (* a forced mask always overrides the selection *)
 Theorem C11_forced_mask : forall input o q k, o_mask o = Some k -> build input o = Ok q -> q_mask q = k.
-Proof. intros input o q k Hk H. now apply (proj2 (proj2 (proj2 (proj2 (proj2 (build_ok_fields input o q H)))))). Qed.
+Proof. exact forced_mask_c11. Qed.
 Print Assumptions C11_forced_mask.
